@@ -1,0 +1,15 @@
+//! verification hooks: public wrappers around the private atom length-prefix
+//! codec, so prefix boundaries up to 2^34-1 can be exercised without
+//! allocating multi-gigabyte atoms. Only built with the `verif-hooks` feature.
+
+use super::parse_atom::decode_size_with_offset;
+pub use super::write_atom::encode_size_prefix;
+use crate::error::Result;
+use std::io::Cursor;
+
+/// decode a length prefix (first byte has the top bit set). Returns (prefix
+/// length in bytes, atom size)
+pub fn decode_size_prefix(prefix: &[u8]) -> Result<(u8, u64)> {
+    let mut f = Cursor::new(&prefix[1..]);
+    decode_size_with_offset(&mut f, prefix[0])
+}
